@@ -162,24 +162,29 @@ def case_from_replay(r):
             "atw": r["keys"][3], "tag": "replay", "exp": False}
 
 
-def big_cases(rep, rng, impl_exe, model_exe):
+def big_cases(rep, rng, impl_exe, model_exe, sizes=(((1 << 24) - 1, 128), (1 << 24, 256))):
     """thorough: data units of 2^24 and 2^24-1 bytes.  The spec is evaluated in 64 KiB windows
     (tweak advanced by xts_tweak_pow, justified by C03_xts_enc_chunks_app); the native driver
     prints the CRC-32 of every 64 KiB of every output."""
     W = 65536
-    for ln in ((1 << 24), (1 << 24) - 1):
-        for ks in (128, 256):
+    for ln, ks in sizes:
+        if True:
             c = mk_case(rng, ks, ln, "big")
             c["inplace"] = rng.below(2)
             nw = (ln + W - 1) // W
+            tout, _ = vlib.run_driver(model_exe, "T t %d %s %s %d %d" % (ks, c["k2"].hex(), c["tw"].hex(), W // 16, nw), shards=1, timeout=1200)
+            tws = tout["t"].split()[1:]
+            if len(tws) != nw:
+                rep.violation("model did not produce the window tweaks of the %d-byte data unit" % ln, {"correspondence": "big data unit", "len": ln}, no_input=True)
+                continue
             wl = []
             for w in range(nw):
                 nbytes = min(W, ln - w * W)
-                if w == nw - 2 and ln % 16:
+                if w == nw - 2 and ln % 16 and ln - (nw - 1) * W < 16:
                     nbytes = ln - w * W       # the window that holds the last full block extends to the end
-                elif w == nw - 1 and ln % 16:
+                elif w == nw - 1 and ln % 16 and ln - (nw - 1) * W < 16:
                     continue
-                wl.append("W w%d %d %s %s %s %d %x %d %d" % (w, ks, c["k2"].hex(), c["k1"].hex(), c["tw"].hex(), ln, c["seed"], w * W // 16, nbytes))
+                wl.append("W w%d %d %s %s %s %d %x %d %d %s" % (w, ks, c["k2"].hex(), c["k1"].hex(), c["tw"].hex(), ln, c["seed"], w * W // 16, nbytes, tws[w]))
             mout, _ = vlib.run_driver(model_exe, "\n".join(wl), timeout=3000)
             enc, dec = bytearray(), bytearray()
             okm = True
